@@ -685,6 +685,15 @@ Proof.
   apply IH, v_step_inv, Hw.
 Qed.
 
+(* histories that mix ordinary and converting operations, for any placement of the other Variant's alternatives *)
+Lemma vc_fold (ct at_ : Z -> Z) (cops : list vcop) (w : vworld) :
+  fold_left (vc_step ct at_) cops w = fold_left v_step (map (vc_to_vop ct at_) cops) w.
+Proof. revert w. induction cops as [|c cops IH]; intros w; cbn [fold_left map]; [reflexivity|]. rewrite IH. reflexivity. Qed.
+
+Theorem vc_reachable_inv (ct at_ : Z -> Z) (n : nat) (alts : Z) (cops : list vcop) :
+  v_inv (fold_left (vc_step ct at_) cops (v_init n alts)).
+Proof. rewrite vc_fold. apply v_reachable_inv. Qed.
+
 Theorem v_all_destroyed (n : nat) (alts : Z) (ops : list vop) :
   let w := fold_left v_step ops (v_init n alts) in
   (forall x, In x (v_objs w) -> x = None) -> ctor (v_stt w) = dtor (v_stt w) /\ bad (v_stt w) = 0.
